@@ -3,7 +3,7 @@ namespace G9
 open Go Spec
 
 theorem need_ok (n : Nat) (p : Bytes) (h : n ≤ p.length) : need n p = .ok (p.take n, p.drop n) := by
-  unfold need; rw [if_neg (by omega)]
+  unfold need; simp only [List.length_take]; rw [if_neg (by omega)]
 
 theorem gint8_ok (p : Bytes) (h : 1 ≤ p.length) : gint8 p = .ok (p.headD 0, p.drop 1) := by
   cases p with
@@ -37,15 +37,18 @@ theorem gqid_ok (p : Bytes) (h : 13 ≤ p.length) : ∃ q, gqid p = .ok (q, p.dr
   rw [gint64_ok _ (by simp only [List.length_drop]; omega)]
   simp [List.drop_drop]
 
+theorem need_panic (n : Nat) (p : Bytes) (h : p.length < n) : need n p = .panic := by
+  unfold need; simp only [List.length_take]; rw [if_pos (by omega)]
+
 theorem gstr_len (p s r : Bytes) (h : gstr p = some (s, r)) : r.length + s.length + 2 = p.length := by
   unfold gstr at h
   split at h
-  · cases h
   · simp only at h
     split at h
     · cases h
     · cases h
-      simp only [List.length_drop, List.length_take]; omega
+      simp only [List.length_drop, List.length_take, List.length_cons] at *; omega
+  · cases h
 
 theorem gqids_ok (m : Nat) (p : Bytes) (h : 13 * m ≤ p.length) : ∃ qs, gqids m p = .ok (qs, p.drop (13 * m)) := by
   induction m generalizing p with
